@@ -3,7 +3,7 @@ use std::os::unix::net::{self, SocketAddr};
 use std::sync::atomic::Ordering;
 
 #[cfg(feature = "io_cancel")]
-use crate::coroutine_impl::co_cancel_data;
+use crate::coroutine_impl::co_cancel_handle;
 use crate::coroutine_impl::{is_coroutine, CoroutineImpl, EventSource};
 use crate::io::sys::{co_io_result, IoData};
 use crate::io::{AsIoData, CoIo};
@@ -61,8 +61,10 @@ impl<'a> UnixListenerAccept<'a> {
 impl EventSource for UnixListenerAccept<'_> {
     fn subscribe(&mut self, co: CoroutineImpl) {
         #[cfg(feature = "io_cancel")]
-        let cancel = co_cancel_data(&co);
-        let io_data = self.io_data;
+        let cancel = co_cancel_handle(&co);
+        // keep the event data alive: once the coroutine is published it may be resumed
+        // by another worker at once, finish and close the socket
+        let io_data = (*self.io_data).clone();
 
         // if there is no timer we don't need to call add_io_timer
         io_data.co.store(co);
@@ -76,7 +78,7 @@ impl EventSource for UnixListenerAccept<'_> {
         #[cfg(feature = "io_cancel")]
         {
             // register the cancel io data
-            cancel.set_io((*io_data).clone());
+            cancel.set_io(io_data.clone());
             // re-check the cancel status
             if cancel.is_canceled() {
                 unsafe { cancel.cancel() };
